@@ -11,7 +11,7 @@ def run(rep):
         ["fun (A V : Type) sem sem_slf dv => @C01_sequential A V sem sem_slf dv {i} {w}",
          "fun (A V : Type) sem sem_slf dv => @C01_returns_sequential A V sem sem_slf dv {i} {w}",
          "fun (A V : Type) sem sem_slf dv => @C01_same_calls A V sem sem_slf dv {i} {w}"],
-        rt_common.std_configs(rng, rep.tier, families=False),
+        rt_common.std_configs(rng, rep.tier, families=True),
         dfs=("bad_loss", "false"),
         search="c03_search", search_what="two clients call every messaging method once with position-tagged arguments, fair schedule (Runtime/Explore.v mixed); anomalies (kind, client, seq): 1 other method/arguments, 3 never executed, 4 executed twice, 5/6 foreign or fabricated reply, 7 caller panicked while actor alive")
     runs = []
@@ -20,7 +20,11 @@ def run(rep):
             runs.append(["mixed", lib, ch, "clients=%d" % (4 if rep.tier == "quick" else 8), "calls=%d" % (60 if rep.tier == "quick" else 300), "seed=%d" % (rep.seed % 100000)])
             if PID in ("C02", "C03"):
                 runs.append(["burst", lib, ch, "k=%d" % (ch + 3 if ch else 6)])
-    rt_common.impl_side(rep, PID, runs, lambda a, d: probe.oracle_mixed(d) if a[0] == "mixed" else probe.oracle_burst(d, None if a[2] == 0 else a[2]))
+    if PID == "C01":
+        # sequential equivalence across the hand-over of a self-consuming call that finds earlier calls still queued
+        for lib in gen_impl.LIBS:
+            runs += [["consume", lib, ch, "handles=1", "pending=%d" % (ch or 3)] for ch in ((0, 2) if rep.tier == "quick" else (0, 1, 2, 3))]
+    rt_common.impl_side(rep, PID, runs, lambda a, d: probe.oracle_mixed(d) if a[0] == "mixed" else probe.oracle_consume(d) if a[0] == "consume" else probe.oracle_burst(d, None if a[2] == 0 else a[2]))
 
 
 def replay(rep, path):
